@@ -1,4 +1,5 @@
 import ShootVerif.Proofs.RestCall
+import ShootVerif.Proofs.RestAst
 import ShootVerif.Props.C20
 /-!
 C10 — rest: status codes and bodies map to results and errors as documented.
@@ -178,5 +179,32 @@ example : WF (.resp 299 .empty) = true ∧ call .ptr (.resp 299 .empty) = ⟨.ze
 example : WF (.resp (-1) .empty) = true ∧ (call .map (.resp (-1) .empty)).err = some ⟨.notSupported, true, false⟩ := by decide
 example : (call .ptr (.resp 200 .wrongtype)).err ≠ none ∧ (call .ptr (.resp 200 .wrongtype)).result = .nil := by decide
 example : call .none (.resp 200 .malformed) = ⟨.absent, true, none⟩ := by decide
+
+/-! ## which result lists become which shape (cook.go:136-171, `Rest.resultShape`) -/
+
+/-- the classification of a method's result list is total and lands in the shapes the theorems above quantify over:
+    a list is accepted exactly when it is `(*http.Response, error)` — no result — or `(R, *http.Response, error)` with an
+    unnamed `R` that is `*T` (pointer shape), `[]T` (slice) or `map[K]V` (map); every other list (one result, four or
+    more, a named first result, any other `R`, the last two not `*http.Response`/`error`) is a Fatal -/
+theorem C10_result_shapes (rs : List Rest.ResGroup) (sh : Shape) :
+    Rest.resultShape rs = some sh ↔
+      (∃ r1 r2, rs = [r1, r2] ∧ r1.ty = .httpResp ∧ r2.ty = .error ∧ sh = .none) ∨
+      (∃ r0 r1 r2, rs = [r0, r1, r2] ∧ r1.ty = .httpResp ∧ r2.ty = .error ∧ r0.nnames = 0 ∧
+        ((r0.ty = .star ∨ r0.ty = .httpResp) ∧ sh = .ptr ∨ r0.ty = .slice ∧ sh = .slice ∨ r0.ty = .map ∧ sh = .map)) := by
+  constructor
+  · intro h
+    rcases Rest.resultShape_length rs sh h with hl | hl
+    · match rs, hl with
+      | [r1, r2], _ => exact Or.inl ⟨r1, r2, rfl, (Rest.resultShape_two r1 r2 sh).1 h⟩
+    · match rs, hl with
+      | [r0, r1, r2], _ => exact Or.inr ⟨r0, r1, r2, rfl, (Rest.resultShape_three r0 r1 r2 sh).1 h⟩
+  · rintro (⟨r1, r2, rfl, h⟩ | ⟨r0, r1, r2, rfl, h⟩)
+    · exact (Rest.resultShape_two r1 r2 sh).2 h
+    · exact (Rest.resultShape_three r0 r1 r2 sh).2 h
+
+example : Rest.resultShape [⟨0, .slice⟩, ⟨0, .httpResp⟩, ⟨0, .error⟩] = some .slice ∧
+    Rest.resultShape [⟨1, .star⟩, ⟨1, .httpResp⟩, ⟨1, .error⟩] = none ∧
+    Rest.resultShape [⟨2, .httpResp⟩, ⟨1, .error⟩] = some .none ∧
+    Rest.resultShape [⟨0, .other⟩, ⟨0, .httpResp⟩, ⟨0, .error⟩] = none := by decide
 
 end ShootVerif.RestCall
